@@ -327,6 +327,7 @@ func checkC05(c *Check) {
 	storesReportFailedRemoval(c, "C05.R2")
 	cookieDecoderComplete(c, "C05.R2")
 	redirectExitsPassRemoval(c, "C05.R1", R)
+	redirectCookieOutlivesLogin(c, "C05.R4", R, m)
 	// the ids handed out are new: every draw is fresh CSPRNG output that is only read afterwards (C06.R1) — a generator
 	// that replays a pool of bytes re-issues ids other clients still hold
 	if c.ID == "C05" {
@@ -335,6 +336,9 @@ func checkC05(c *Check) {
 		importObls(c, "C10", checkC10, "C05.R3", func(o *Obligation) bool {
 			return strings.HasPrefix(o.Key, "C10.R2/created-write") || strings.HasPrefix(o.Key, "C10.R2/insert-only-when-absent")
 		})
+		// "after destroying whatever was stored under the presented one": the removal is not undone by a concurrent sweep —
+		// every access to the session map and to a session's fields happens under the store mutex (C12.R1)
+		importObls(c, "C12", checkC12, "C05.R1", func(o *Obligation) bool { return strings.HasPrefix(o.Key, "C12.R1/locked/") })
 	}
 
 	// ---- R6: the cookie call under LogoutMatch true has timeout 0 and a constant value
@@ -488,6 +492,36 @@ func cookieDecoderComplete(c *Check, rule string) {
 			}
 		}
 	}
+	// range-over-func form (`for piece := range strings.SplitSeq(header, ";")`): the loop body is the yield function handed
+	// to the sequence; the map is filled there, and the body never asks the sequence to stop (every return is `true`)
+	for _, ci := range allCalls(dec) {
+		seq, _, isSeq := asCall(ci.Common().Value)
+		if !isSeq || !isCallToAny(seq, "strings.SplitSeq", "strings.SplitAfterSeq", "strings.FieldsFuncSeq") || len(ci.Common().Args) != 1 {
+			continue
+		}
+		mc, isMC := ci.Common().Args[0].(*ssa.MakeClosure)
+		if !isMC {
+			continue
+		}
+		body, _ := mc.Fn.(*ssa.Function)
+		if body == nil {
+			continue
+		}
+		for _, b := range body.Blocks {
+			for _, ins := range b.Instrs {
+				switch x := ins.(type) {
+				case *ssa.MapUpdate:
+					filled = true
+				case *ssa.Return:
+					if len(x.Results) == 1 {
+						if k, isK := constBool(x.Results[0]); (!isK || !k) && bad == "" {
+							bad = "the body of the loop over the cookies can stop the sequence early at " + posOf(P, x)
+						}
+					}
+				}
+			}
+		}
+	}
 	if !filled && bad == "" {
 		bad = "the cookie map is not filled inside the loop over the pieces of the header"
 	}
@@ -548,4 +582,39 @@ func redirectExitsPassRemoval(c *Check, rule string, R *Roles) {
 	hit := reachAvoidingEdges(rd.Blocks[0].Instrs[0], isReturn, func(i ssa.Instruction) bool { return i == ssa.Instruction(rm) }, emptyOld)
 	c.Obl(hit == nil, rule, "redirect-exits-pass-removal", P.Pos(rm.Pos()), "with a presented session id every exit of the login-redirect helper lies behind RemoveSession",
 		"the login-redirect helper can return at "+posOf(P, hit)+" without having called RemoveSession although a session id was presented: the stale session survives the failed refresh")
+}
+
+// redirectCookieOutlivesLogin: the session cookie issued with the login redirect is a session cookie (negative timeout:
+// no Max-Age) or lives for at least a second-scaled, positive duration. A timeout that can be zero or a sub-second
+// value (a configured number of seconds used as nanoseconds) makes the Set-Cookie that should create the cookie
+// delete it: the browser comes back from the provider without it and is sent to the provider again, for ever.
+func redirectCookieOutlivesLogin(c *Check, rule string, R *Roles, m *hModel) {
+	P := c.P
+	args := m.RedirCookie.Common().Args
+	if len(args) < 3 {
+		return
+	}
+	bad := ""
+	for _, alt := range phiAlternatives(R.Redirect, resolveCell(stripConv(args[2])), m.RedirCookie) {
+		v := stripConv(resolveCell(stripConv(alt.V)))
+		if k, isK := constInt(v); isK {
+			if k >= 0 && k < 1000000000 {
+				bad = fmt.Sprintf("the constant %d (less than a second, Max-Age=0)", k)
+			}
+			continue
+		}
+		scaled := false
+		if bo, isB := v.(*ssa.BinOp); isB && bo.Op == token.MUL {
+			for _, side := range []ssa.Value{bo.X, bo.Y} {
+				if k, isK := constInt(stripConv(side)); isK && k >= 1000000000 {
+					scaled = true
+				}
+			}
+		}
+		if !scaled {
+			bad = descDepth(v, 3) + ", which is not a negative constant nor a duration scaled to seconds"
+		}
+	}
+	c.Obl(bad == "", rule, "redirect-cookie-outlives-login", P.Pos(m.RedirCookie.Pos()), "the login redirect's cookie is a session cookie or lives for whole seconds",
+		"the login redirect can issue its session cookie with the timeout "+bad+": Max-Age=0 deletes the cookie the redirect should create and the login never completes")
 }
